@@ -12,7 +12,8 @@
                       classify a failure as "a component of a recursive type is typed wrongly"); fnres: the value inhabits the DECLARED result type of some
                       function of the program (classifies "the call site's type is narrower than
                       the callee's"); nevertop: the judgement with the empty union read as top;
-                      fnreslen: fnres under the lenient reading
+                      fnreslen: fnres under the lenient reading; niltop: the judgement with the
+                      nil type read as top
            wt: wt_valueb of the value (every tuple's fields inhabit its tuple type's field types)
            fo: the value holds no function/process (the fragment `inhabv_sound_fo` covers)
      (enum (t N) (depth D) (cap C) (fns ..) (bis ..) (resources ..) REG)
@@ -172,7 +173,10 @@ let run_judge args =
           match lookup_type p.tp_reg c with
           | Some (TCallable (_, r, _)) -> (match judge lp walk_fuel sig_cap sig_depth v r with Accept -> true | _ -> false)
           | _ -> false) p.tp_fn_type in
-      Printf.sprintf " (lenient %d) (fnres %d) (nevertop %d) (fnreslen %d)" len (if fnres then 1 else 0) nt (if fnreslen then 1 else 0)
+      (* the nil type `(tuple 0)` read as top: classifies "a type variable was instantiated to nil" *)
+      let nil_top = { p with tp_reg = { p.tp_reg with types = List.map (function TTuple O -> TCycle O | t -> t) p.tp_reg.types } } in
+      let nilt = (match judge nil_top walk_fuel sig_cap sig_depth v t with Accept -> 1 | _ -> 0) in
+      Printf.sprintf " (lenient %d) (fnres %d) (nevertop %d) (fnreslen %d) (niltop %d)" len (if fnres then 1 else 0) nt (if fnreslen then 1 else 0) nilt
     end in
   Printf.printf "(verdict %s) (wt %d) (depth %d) (fo %d)%s\n" verdict (if wt then 1 else 0) depth
     (if first_order v then 1 else 0) extra
